@@ -26,6 +26,9 @@ type FuncResult struct {
 	Cmds        []string
 	Mode        string
 	Contract    *Contract
+	Fn          *ssa.Function
+	ParamConsts []string
+	Witness     map[string]string
 }
 
 func (eng *Engine) VerifyFunc(c *Contract) (res *FuncResult) {
@@ -74,6 +77,12 @@ func (eng *Engine) VerifyFunc(c *Contract) (res *FuncResult) {
 	res.Inlined = keys(vc.inlined)
 	res.Used = keys(vc.usedContracts)
 	res.Notes = vc.notes
+	res.Fn = fn
+	res.ParamConsts = vc.paramConsts
+	res.Witness = map[string]string{}
+	for n, t := range vc.ghost {
+		res.Witness[n] = t.S
+	}
 	return
 }
 
@@ -102,6 +111,7 @@ func (vc *VC) verifyTop(fn *ssa.Function, c *Contract) {
 		vc.assumeAllocated(st, a)
 		args = append(args, a)
 		st.env[p] = a
+		vc.paramConsts = append(vc.paramConsts, a.S)
 	}
 	vc.oldState = st.clone()
 	f0 := &frame{vc: vc, fn: fn, c: c}
